@@ -18,7 +18,7 @@ def run(ctx):
     quick = ctx.tier == "quick"
     ctx.build_harness()
     ctx.tlc_must_pass("MC_Gradient", "MC_Gradient", timeout=600)
-    p, _ = ctx.run_harness(["drive-c15", "-out", ctx.tmp, "-shards", "16", "-n", str(40 if quick else 1500)], timeout=3000)
+    p, _ = ctx.run_harness(["drive-c15", "-out", ctx.tmp, "-shards", "16", "-n", str(40 if quick else 4000)], timeout=3000)
     summ = deccheck.summary_of(p)
     files = sorted(glob.glob(os.path.join(ctx.tmp, "c15.*.ndjson")))
     events, diags, runs = vlib.tv_shards(ctx, "TV_Gradient", "TV_Gradient", files)
